@@ -30,7 +30,7 @@ prop("C20",
 prop("C06",
      coq_deps=["Base.v", "Term.v", "Expr.v", "Corr.v", "ExprProofs.v", "TableProofs.v", "Generated.v"],
      theorems=["C06_total_no_panic", "C06_total", "C06_arith_exact", "C06_never_wrapped", "C06_ill_typed_is_error",
-               "C06_well_typed_iff", "C06_well_typed_result", "C06_result_type", "C06_unary_table", "C06_set_ops",
+               "C06_well_typed_iff", "C06_well_typed_result", "C06_result_type", "C06_unary_table", "C06_set_ops", "C06_set_ops_no_repeats",
                "C06_string_ops", "C06_postfix", "C06_ok_is_postfix", "C06_malformed_is_error",
                "C06_every_operator_has_an_evaluator_arm"],
      trusted=["Go's regexp is not modelled: Section variable rx (pattern, subject -> option bool); the theorems hold for every rx",
@@ -56,21 +56,27 @@ prop("C03", coq_deps=AUTHZ_DEPS,
 prop("C04", coq_deps=AUTHZ_DEPS + ["DatalogProofs.v", "OrderProofs.v"],
      theorems=["C04_verdict_structure", "C04_success_iff", "C04_precedence", "C04_decision", "C04_first_match", "C04_no_match",
                "C04_or_is_disjunction", "C04_run_error_wins", "C04_worlds_are_least_models", "C04_verdict_spec"],
-     trusted=AUTHZ_TRUSTED, assumptions=["the scopes' worlds are the run results; that a run result is the least model is C05_least_model"])
+     trusted=AUTHZ_TRUSTED, assumptions=["the scopes' worlds are the run results; that a run result is the least model (up to Predicate.Equal) is C05_least_model; "
+                                         "no hypothesis about sets"])
 prop("C13", coq_deps=AUTHZ_DEPS,
      theorems=["C13_reset_fresh", "C13_rounds", "C13_rounds_outputs", "C13_history_cut", "C13_limits_invariant"],
      trusted=AUTHZ_TRUSTED, assumptions=["Reset is modelled as going back to the empty world carrying the configured limits (fix 829f55f)"])
 
 prop("C05", coq_deps=["Base.v", "Term.v", "Expr.v", "Datalog.v", "Corr.v", "DatalogProofs.v", "Odometer.v", "OdometerProofs.v", "Generated.v"],
-     theorems=["C05_run_sound", "C05_run_complete", "C05_least_model", "C05_derivable_is_least", "C05_query_exact",
-               "C05_query_sound", "C05_order_free", "C05_world_only_grows", "C05_odometer_refines"],
+     theorems=["C05_run_sound", "C05_run_complete", "C05_least_model", "C05_least_model_setfree", "C05_derivable_is_least",
+               "C05_query_exact", "C05_query_sound", "C05_order_free", "C05_order_free_equal", "C05_world_only_grows",
+               "C05_equal_is_equivalence", "C05_operators_respect_equal", "C05_set_operators_respect_equal", "C05_trel_is_equal",
+               "C05_odometer_refines"],
      trusted=["Go's regexp is not modelled (Section variable rx)",
               "the join enumeration is modelled declaratively (combos: lexicographic index tuples pruned by Match); the literal index "
               "machine of combine/advanceIndexes is tied by the ORDERED correspondence (World.Facts() and QueryRule results compared as "
               "ordered lists) and by Proofs/OdometerProofs.v where closed",
               "S-level model (strings by content); wall-clock timeout not modelled"],
-     assumptions=["completeness and order-independence are stated for set-free facts and rule heads (Set.Equal is not an equivalence on "
-                  "lists with repeated elements: C05_setfree_needed); soundness needs no hypothesis"])
+     assumptions=["no hypothesis about sets: after fix bd3bfa8 (symmetric Set.Equal, Intersect/Union without repetitions) term equality is an "
+                  "equivalence that every operator respects, so 'present' and 'same facts' are stated up to Predicate.Equal (InA / "
+                  "PermutationA fact_eqv): the world keeps the first representative of each class (C05_modulo_equal shows this is "
+                  "necessary: p([1,2]) and p([2,1]) are one fact); the set-free corollary keeps the syntactic statement",
+                  "base facts pairwise different (NoDupA), runs within limits"])
 
 CHAIN_DEPS = ["Base.v", "Chain.v", "Corr.v", "ChainProofs.v", "Generated.v"]
 CHAIN_TRUSTED = ["ed25519 is not modelled: Section variables pub/sign/verify; laws used are stated in each theorem "
@@ -97,9 +103,11 @@ prop("C17", coq_deps=CHAIN_DEPS,
      trusted=CHAIN_TRUSTED, assumptions=["fresh randomness: distinct signing events draw distinct 32-byte seeds; pub and sign are collision-free"])
 
 prop("C12", coq_deps=AUTHZ_DEPS + ["DatalogProofs.v", "OrderProofs.v"],
-     theorems=["C12_permutation", "C12_alpha", "C12_duplicate", "C12_duplicate_in_block", "C12_repeat"],
+     theorems=["C12_permutation", "C12_permutation_setfree", "C12_alpha", "C12_duplicate", "C12_duplicate_in_block", "C12_duplicate_in_block_equal", "C12_repeat"],
      trusted=AUTHZ_TRUSTED,
-     assumptions=["fragment: set-free facts and rule heads, error-free queries (queries_ef), runs within limits (runs_ok); "
+     assumptions=["no hypothesis about sets (fix bd3bfa8): worlds are compared up to Predicate.Equal (PermutationA fact_eqv), verdict classes "
+                  "are equal; C12_permutation_setfree keeps the syntactic statement",
+                  "error-free queries (queries_ef), runs within limits (runs_ok), authorizer facts pairwise different; "
                   "the policy list order is significant and not permuted; renaming acts on top-level variables"])
 prop("C11", coq_deps=AUTHZ_DEPS + ["DatalogProofs.v", "ChanLTS.v", "ChanLTSProofs.v"],
      theorems=["C11_ok_is_fixpoint", "C11_max_facts_error", "C11_max_iterations_error", "C11_error_cases",
